@@ -439,6 +439,8 @@ def corrupt (inst, field, val):
   if field == "hdr.length": struct.pack_into("!H", b, 2, val)
   elif field == "type": b[1] = val
   elif field == "version": b[0] = val
+  elif field == "ver+len":                      # double corruption: bad version AND overstated length
+    b[0] = val >> 16; struct.pack_into("!H", b, 2, val & 0xffff)
   elif field.startswith("emb:"): struct.pack_into("!H", b, dict(inst.emb)[field[4:]], val)
   elif field == "trunc": b = b[:val]
   elif field == "none": pass
@@ -488,6 +490,7 @@ def field_class (case, inst):
     return "hdr.length<8" if v < 8 else ("hdr.length=short" if v < n else "hdr.length=long")
   if f == "type": return "type"
   if f == "version": return "version"
+  if f == "ver+len": return "version+hdr.length=long"
   if f.startswith("emb:"):
     lab = "".join(ch for ch in f[4:] if not ch.isdigit())
     return "emb:%s=%s" % (lab, "0" if v == 0 else ("<8" if v < 8 else ("0xffff" if v == 0xffff else ">=8")))
@@ -613,6 +616,14 @@ def judge (case, insts, w, differential=True):
       k = next((k for k in range(j, len(units)) if raw == units[k][1]), None)
       if k is None:
         k = next((k for k in range(j, len(units)) if is_valid(k) and raw[1] == units[k][1][1] and raw[4:8] == units[k][1][4:8]), None)
+    if k is None and raw is not None and len(raw) >= 8:
+      # a delivered message that is no unit of the reference framing but sits INSIDE one: bytes within a
+      # message's declared length were decoded as a message of their own
+      host = next((u for (o, u) in units if raw in u and not u.startswith(raw)), None)
+      if host is not None:
+        v("4", "delivered-from-inside-message", [tname(host[1])],
+          "a %s (xid %#x) was delivered that lies inside the declared length of a %s message (type %d, length %d)"
+          % (d["cls"], xid_of(raw), tname(host[1]), host[1], len(host)))
     if k is not None:
       acted.setdefault(k, set()).add("d"); j = k + 1
     elif j < len(units):
@@ -648,9 +659,16 @@ def judge (case, insts, w, differential=True):
   beyond = [D[di]["cls"] for (di, jj) in inexact if jj is None]
   if closed:
     cause = [k for k in suspects if k <= last + 1]
-    if not cause and why != "unframeable" and not w.eof_pushed[h]:
+    bad_tail = why == "incomplete" and len(tail) >= 1 and tail[0] != W.VERSION      # a header we cannot accept
+    if not cause and why != "unframeable" and not w.eof_pushed[h] and not bad_tail:
       v("4", "closed-without-cause", [mc, fc], "the hostile connection was closed while only valid messages had been received")
   else:
+    if (why == "incomplete" and len(tail) >= 8 and tail[0] != W.VERSION and tail[1] != W.HELLO
+        and not any(xid_of(tail) == x or (len(data) >= 8 and tail.startswith(data[:8])) for (x, data, tc) in E)):
+      v("4", "malformed-ignored", [tname(tail[1]), "bad-version-awaiting-declared-length"],
+        "a header with version %#x (declared length %d, %d bytes received) was neither answered with an error nor did it "
+        "close the connection: the receiver waits for the rest of a message it cannot accept"
+        % (tail[0], struct.unpack_from("!H", tail, 2)[0], len(tail)))
     if why == "unframeable":
       v("4", "unframeable-accepted", [], "a %s header with length %d < 8 was received and the connection stayed open%s"
         % (tname(tail[1]), struct.unpack_from("!H", tail, 2)[0], " (and %d message(s) were delivered from the bytes behind it)" % len(beyond) if beyond else ""))
@@ -724,6 +742,10 @@ def cases_for (side, ii, inst, group, quick):
       for glue in (True, False):
         add("none", 0, pos, glue)
         for val in VERSIONS: add("version", val, pos, glue)
+        # a foreign protocol's bytes (e.g. "GET / HTTP"): wrong version byte and a "length" far beyond what arrives
+        for ver in (0, 0x47):
+          for ln in (n + 1, n + 8, 0x5420, 0xffff):
+            add("ver+len", (ver << 16) | ln, pos, glue)
         for (label, off) in inst.emb:
           cur = struct.unpack_from("!H", inst.data, off)[0]
           for val in EMB_VALUES:
